@@ -206,23 +206,25 @@ def multirange(chk, P):
     mod = "atsim.potentials._multi_range_potential_form"
     cls = P.cls(mod, "Multi_Range_Potential_Form_Deriv2")
     defn = P.cls(mod, "Multi_Range_Defn")
-    for scenario, rv in (("selected", 3), ("none", 1)):
-        I = F.make_interp(P)
-        I.assumption_fns.append(F.hasattr_true({"deriv": True, "deriv2": True}))
-        rd = I.instantiate(defn, [Const(">"), Num(ep.const(2)), W.param("f")], {}, None)
-        inst = I.instantiate(cls, [rd], {"default_value": Num(ep.sym("default"))}, None)
-        r = Num(ep.const(rv))
-        for meth, order in (("__call__", 0), ("deriv", 1), ("deriv2", 2)):
-            v = I.num(I.call(I.getattr(inst, meth), [r], {}))
-            if scenario == "selected":
-                want = ep.app(("param", "f"), [ep.const(rv)], dorder=order)
-                what = "%s uses the selected range's %s at r" % (meth, ["value", "first derivative", "second derivative"][order])
-            else:
-                want = ep.sym("default") if order == 0 else ep.const(0)
-                what = "%s returns %s when no range contains r" % (meth, "default_value" if order == 0 else "0.0")
-            ok, why = ep.equal(v, want)
-            chk.ob("C07.O5", what, ok, site=cls.lookup(meth).site(), found=why or v, expect=want,
-                   key="C07.O5|%s|%s" % (scenario, meth))
+    for has_d, has_d2 in ((True, True), (True, False), (False, False)):
+        offers = "f offers %s" % (" and ".join(n for n, h in (("deriv", has_d), ("deriv2", has_d2)) if h) or "no analytic derivative")
+        for scenario, rv in (("selected", 3), ("none", 1)):
+            I = F.make_interp(P)
+            I.assumption_fns.append(F.hasattr_true({"deriv": has_d, "deriv2": has_d2}))
+            rd = I.instantiate(defn, [Const(">"), Num(ep.const(2)), W.param("f")], {}, None)
+            inst = I.instantiate(cls, [rd], {"default_value": Num(ep.sym("default"))}, None)
+            r = Num(ep.const(rv))
+            for meth, order in (("__call__", 0), ("deriv", 1), ("deriv2", 2)):
+                v = I.num(I.call(I.getattr(inst, meth), [r], {}))
+                if scenario == "selected":
+                    want = ep.app(("param", "f"), [ep.const(rv)], dorder=order)
+                    what = "%s uses the selected range's %s at r (%s)" % (meth, ["value", "first derivative", "second derivative"][order], offers)
+                else:
+                    want = ep.sym("default") if order == 0 else ep.const(0)
+                    what = "%s returns %s when no range contains r (%s)" % (meth, "default_value" if order == 0 else "0.0", offers)
+                ok, why = ep.equal(v, want)
+                chk.ob("C07.O5", what, ok, site=cls.lookup(meth).site(), found=why or v, expect=want,
+                       key="C07.O5|%s|%s|%s%s" % (scenario, meth, int(has_d), int(has_d2)))
 
 
 def phi_leaves(v, conds=()):
